@@ -15,6 +15,9 @@ ENGINES = {
             "pure-all": ["--features", "all,pure"],
             "asm-nodef": NODEF,
             "intr-nodef": NODEF + ["--features", "prefer_intrinsics"],
+            # the same code as users build it: debug assertions and overflow checks off
+            "asm-default-nodebug": ["--profile=nodebug"],
+            "pure-all-nodebug": ["--profile=nodebug", "--features", "all,pure"],
         },
     },
     "stock": {
@@ -54,9 +57,21 @@ def simple(engine, cfg, **kw):
     return runs
 
 
+def with_nodebug(engine, cfg, **kw):
+    """The checked build (debug assertions and overflow checks on) plus the same enumeration on the
+    pure-Rust all-features build without them (what users ship; another flavour as a bonus)."""
+    def runs(tier):
+        a = {"engine": engine, "cfg": cfg, "tag": "checked"}
+        b = {"engine": engine, "cfg": "pure-all-nodebug", "tag": "nodebug"}
+        a.update(kw)
+        b.update(kw)
+        return [a, b]
+    return runs
+
+
 C04_PROPS = ["C01", "C02", "C03", "C09"]
-C04_QUICK = ["asm-default", "intr-all", "pure-nodef"]
-C04_ALL = ["asm-default", "asm-all", "asm-nodef", "intr-default", "intr-all", "intr-nodef", "pure-default", "pure-all", "pure-nodef"]
+C04_QUICK = ["asm-default", "intr-all", "pure-nodef", "pure-all-nodebug"]
+C04_ALL = ["asm-default", "asm-all", "asm-nodef", "intr-default", "intr-all", "intr-nodef", "pure-default", "pure-all", "pure-nodef", "pure-all-nodebug", "asm-default-nodebug"]
 
 
 def c04_runs(tier):
@@ -99,8 +114,11 @@ def c06_runs(tier):
 
 
 PLANS = {
-    "C01": {"level": "exploration", "runs": simple("core", "asm-default")},
-    "C02": {"level": "model_checking", "runs": simple("core", "asm-all")},
+    "C01": {"level": "exploration", "runs": lambda tier: [
+        {"engine": "core", "cfg": "asm-default", "tag": "checked"},
+        # the same sweep on a build without debug assertions / overflow checks (what users ship)
+        {"engine": "core", "cfg": "asm-default-nodebug", "tag": "nodebug"}]},
+    "C02": {"level": "model_checking", "runs": simple("core", "asm-all", extra=["--huge", "1"])},
     "C03": {"level": "model_checking", "runs": simple("core", "asm-default")},
     "C04": {"level": "exploration", "runs": c04_runs, "post": c04_post},
     "C05": {"level": "exploration", "runs": simple("kernels", "default")},
@@ -119,12 +137,13 @@ PLANS = {
     "C10": {"level": "model_checking", "runs": lambda tier: [
         {"engine": "core", "cfg": "asm-default", "tag": "bfs"},
         # the trait-level resetting variants (digest::Reset, *_reset) must also leave the state of a new hasher
-        {"engine": "core", "cfg": "asm-all", "prop": "C16", "tag": "traits-reset"}]},
+        {"engine": "core", "cfg": "asm-all", "prop": "C16", "tag": "traits-reset"},
+        {"engine": "core", "cfg": "pure-all-nodebug", "tag": "bfs-nodebug"}]},
     "C12": {"level": "fault_enumeration", "runs": simple("b3sum", "default")},
     "C13": {"level": "exploration", "runs": simple("b3sum", "default")},
-    "C14": {"level": "exploration", "runs": simple("core", "asm-all")},
+    "C14": {"level": "exploration", "runs": with_nodebug("core", "asm-all")},
     "C15": {"level": "exploration", "runs": simple("core", "asm-all")},
-    "C16": {"level": "model_checking", "runs": simple("core", "asm-all")},
-    "C17": {"level": "model_checking", "runs": simple("core", "asm-all")},
-    "C11": {"level": "fault_enumeration", "runs": simple("core", "asm-all", shims={"mmapfail": "VERIF_MMAPFAIL_SO"})},
+    "C16": {"level": "model_checking", "runs": with_nodebug("core", "asm-all")},
+    "C17": {"level": "model_checking", "runs": with_nodebug("core", "asm-all")},
+    "C11": {"level": "fault_enumeration", "runs": with_nodebug("core", "asm-all", shims={"mmapfail": "VERIF_MMAPFAIL_SO"})},
 }
